@@ -26,8 +26,11 @@ C05OK(rec) ==
 C20OK(rec) ==
     IF rec.op = "stray" THEN rec.out = (IF StrayAborts(rec.f, rec.pos) THEN "abort" ELSE "ok")
     ELSE rec.out = "ok"                    \* objects moved only with the provided functions never abort
+\* C16: a failed smart-pointer allocation leaves the object empty, nothing leaked
+C16OK(rec) == (rec.op \in {"salloc", "ualloc"} /\ \E k \in 1..Len(rec.ok) : ~rec.ok[k]) => C05OK(rec)
 VARIABLE i
 Judge(rec) ==
+    /\ (Level # 2 \/ C16OK(rec) \/ PrintT(<<"L2FAIL", "C16", rec.id>>))
     /\ (Level # 2 \/ C05OK(rec) \/ PrintT(<<"L2FAIL", "C05", rec.id>>))
     /\ (Level # 2 \/ C20OK(rec) \/ PrintT(<<"L2FAIL", "C20", rec.id>>))
     /\ (Level # 1 \/ StepOK(rec) \/ PrintT(<<"L1DRIFT", "ptr", rec.id>>))
